@@ -265,6 +265,7 @@ type dnsOp struct {
 	expectReject bool
 	pre          *dnsEntryObs // entry cached under the op's key when the op began
 	reloadOverlap int
+	rs           *dnsRuleSet // rules in force when the op began
 }
 
 type dnsCfg struct {
@@ -1182,6 +1183,7 @@ func (w *dnsWorld) doOp(op *dnsOp, timeout time.Duration) {
 	op.key = w.keyOf(op.name, op.qtype)
 	op.expectReject = op.key.scope == -1
 	op.reloadOverlap = w.reloads
+	op.rs = w.rules
 	if w.track != nil {
 		w.track.scan()
 		op.pre = w.track.entry(op.key)
